@@ -6,6 +6,9 @@ def T(shards=8, procs=2, timeout=600, **kw):
     return d
 
 CHECKS = {
+    "C05": {"pkg": "c05", "level": "exploration",
+            "quick": T(8, 2, 600), "thorough": T(14, 1, 2400),
+            "assumptions": ["forger holds no keys; AEAD/HMAC primitives of the standard library are sound"]},
     "C06": {"pkg": "c06", "level": "exploration",
             "quick": T(8, 2, 600), "thorough": T(14, 1, 2400),
             "assumptions": ["records of one round are written at quiescence so they carry consecutive sequence numbers", "sliding-window model used one-sidedly as the statement is worded"]},
